@@ -31,9 +31,12 @@ import diag_common as dc
 from rattr.config import Config, State
 
 PAD = dc.IMPORT_PAD          # file k starts with k * PAD blank lines
-FILES = ("target", "helper", "tstar", "hstar", "tstar2")
+FILES = ("target", "helper", "tstar", "hstar", "tstar2", "facade", "mid", "impl")
 FID = {n: i for i, n in enumerate(FILES)}
-PREFIX = {"target": "t", "helper": "h", "tstar": "ts", "hstar": "hs", "tstar2": "t2"}
+PREFIX = {"target": "t", "helper": "h", "tstar": "ts", "hstar": "hs", "tstar2": "t2", "facade": "fa", "mid": "mi", "impl": "im"}
+# re-export chains (round 4): the target (or the followed import `helper`) imports a name from
+# `facade`, which only re-exports it from `mid`, which re-exports it from `impl` (0, 1 or 2 hops)
+CHAIN_ROUTE = ("facade", "mid")
 # who star-imports whom
 STAR_OF = {"tstar": "target", "hstar": "helper", "tstar2": "tstar"}
 
@@ -87,6 +90,46 @@ MODULE_MENU = {
 for _k, _v in dc.ANALYSIS_MENU.items():
     MODULE_MENU["f_" + _k] = _v
 
+# --- constructs whose diagnostics depend on an option naming their culprit (round 4). `legacy_*` modules do
+# not exist: without `-F legacy_.*` the import is a fatal of the root context, with it an error of the import
+# walk. `*_xq*` names match `-x .*_xq.*`: the function / class is then not analysed at all.
+OPTION_MENU = {
+    "m_import_unlocatable": "import legacy_{p}{n}\n",
+    "m_from_unlocatable": "from legacy_{p}{n} import thing{n}\n",
+    "m_import_unlocatable_dotted": "import legacy_{p}{n}.sub{n}\n",
+    "f_call_excluded": "def {p}_xq{n}(x):\n    return x.q\n\ndef {p}_f{n}(a):\n    return {p}_xq{n}(a)\n",
+    "f_init_excluded": "class {p}_xq_K{n}:\n    def __init__(self, v):\n        self.v = v.w\n\n"
+                       "def {p}_f{n}(a):\n    k = {p}_xq_K{n}(a)\n    return k\n",
+    "f_excluded_nested_def": "def {p}_xq{n}(a):\n    def inner{n}():\n        pass\n    return a\n",
+    "f_excluded_undefined_name": "def {p}_xq{n}(a):\n    return {p}_undef{n}.x\n",
+    "f_excluded_global": "def {p}_xq{n}(a):\n    global G{n}\n    return a\n",
+}
+MODULE_MENU.update(OPTION_MENU)
+UNLOCATABLE = ("m_import_unlocatable", "m_from_unlocatable", "m_import_unlocatable_dotted")
+F_LEGACY, X_XQ = "legacy_.*", ".*_xq.*"
+
+# --- what the defining module of a chain holds for the called name -> its source there ({f} the name, {n} serial)
+CHAIN_CALLEES = {
+    "missing": "",                                                                   # error at the last hop: likely undefined
+    "ignored": "@rattr_ignore\ndef {f}(x):\n    return x.y\n",                       # error: likely ignored
+    "excluded": "def {f}(x):\n    return x.q\n",                                     # name matches -x .*_xq.*: likely ignored / resolved
+    "ok": "def {f}(x):\n    return x.ok{n}\n",
+    "lam": "{f} = lambda x: x.lam{n}\n",
+    "var": "{f} = {n}\n",                                                            # a plain name: likely undefined
+    "cls_init": "class {f}:\n    def __init__(self, v):\n        self.v = v.w\n",
+    "cls_noinit": "class {f}:\n    pass\n",                                          # no initialiser, no IR: likely ignored
+    "cls_missing": "",
+    "stdlib": None,                                                                  # the last hop is `from math import sqrt as {f}`
+}
+CHAIN_SHAPES = {
+    "plain": "return {f}(a)",
+    "store": "k = {f}(a)\n    return k",
+    "too_many": "return {f}(a, a, a)",
+    "unexpected_kw": "return {f}(a, zz{n}=a)",
+    "method": "return {f}.meth{n}(a)",
+    "twice": "return {f}({f}(a))",
+}
+
 # constructs after which (in some file, under some configuration) the run cannot go on
 ENDING = ("m_lambda_pair", "m_toplevel_lambda", "m_rel_import", "m_import_missing", "m_walrus_lambda_fatal",
           "m_walrus_tuple_fatal", "m_walrus_nested_fatal", "m_walrus_global_fatal", "m_lambda_fatal",
@@ -116,15 +159,82 @@ def module_names(prog):
     return {**{f: f for f in FILES}, **(prog.get("names") or {})}
 
 
+def chain_route(prog):
+    """The modules a chained name travels through, importer side first: [] (no chain), ["impl"],
+    ["facade", "impl"], ["facade", "mid", "impl"]."""
+    ch = prog.get("chain")
+    if not ch:
+        return []
+    return list(CHAIN_ROUTE[:ch["hops"]]) + ["impl"]
+
+
+def chain_name(call, n):
+    callee = call[0]
+    return f"c{n}_xq" if callee == "excluded" else f"c{n}_{callee}"
+
+
+def render_chain(prog, names, dot):
+    """-> {file: {"imports": [lines], "defs": [sources]}} for the chain part of a program.
+    chain = {"hops": 0..2, "style": "from" | "module", "calls": [[callee, shape, caller], ..]}:
+    the caller (a function of the target, or a function of `helper` that the target calls) calls a name
+    it imports from the first module of the route; every module of the route but the last only
+    re-exports it (`from <next> import <name>`); the last one holds CHAIN_CALLEES[callee]."""
+    out = {}
+    ch = prog.get("chain")
+    if not ch:
+        return out
+    route = chain_route(prog)
+    add = lambda f, k, v: out.setdefault(f, {"imports": [], "defs": []})[k].append(v)   # noqa: E731
+    module_style = ch.get("style") == "module" and not dot
+    for i, call in enumerate(ch["calls"]):
+        callee, shape, caller = call
+        n = 900 + i
+        f = chain_name(call, n)
+        # the route: importer k imports from route[k]
+        for k in range(len(route) - 1):
+            nxt = names[route[k + 1]]
+            if callee == "stdlib" and k == len(route) - 2:
+                add(route[k], "imports", f"from math import sqrt as {f}\n")
+            else:
+                add(route[k], "imports", f"from {dot}{nxt} import {f}\n")
+        if callee == "stdlib":
+            if len(route) == 1:
+                first_import = f"from math import sqrt as {f}\n"
+            else:
+                first_import = f"from {dot}{names[route[0]]} import {f}\n"
+        else:
+            first_import = f"from {dot}{names[route[0]]} import {f}\n"
+            src = CHAIN_CALLEES[callee]
+            if src:
+                add("impl", "defs", src.format(f=f, n=n))
+        ref = f
+        if module_style and not (callee == "stdlib" and len(route) == 1):
+            first_import = f"import {names[route[0]]}\n"
+            ref = f"{names[route[0]]}.{f}"
+        body = CHAIN_SHAPES[shape].format(f=ref, n=n)
+        who = "helper" if caller == "helper" and "helper" in prog["files"] else "target"
+        if first_import not in out.get(who, {"imports": []})["imports"]:
+            add(who, "imports", first_import)
+        if who == "helper":
+            add("helper", "defs", f"def h_c{n}(a):\n    {body}\n")
+            add("target", "imports", f"from {dot}{names['helper']} import h_c{n}\n")
+            add("target", "defs", f"def t_c{n}(a):\n    return h_c{n}(a)\n")
+        else:
+            add("target", "defs", f"def t_c{n}(a):\n    {body}\n")
+    return out
+
+
 def render(prog):
-    """prog: {"files": {name: [kinds]}, "simpl": [SIMPL_MENU kinds], "layout": "flat" | "package"} ->
-    {name: source}. In the package layout every file is a module of the package `pkg` and all imports
-    between them are relative (`from .tstar import *`, `from .helper import ..`)."""
+    """prog: {"files": {name: [kinds]}, "simpl": [SIMPL_MENU kinds], "layout": "flat" | "package",
+    "chain": .. (render_chain), "options": .. (option_argv)} -> {name: source}. In the package layout every
+    file is a module of the package `pkg` and all imports between them are relative (`from .tstar import *`,
+    `from .helper import ..`)."""
     out = {}
     n = 0
     dot = "." if prog.get("layout") == "package" else ""
     names = module_names(prog)
     present = [f for f in FILES if f in prog["files"]]
+    chain = render_chain(prog, names, dot)
     for name in present:
         p = PREFIX[name]
         parts = ["\n" * (FID[name] * PAD), HEAD]
@@ -135,6 +245,7 @@ def render(prog):
         for star, owner in STAR_OF.items():
             if owner == name and star in prog["files"]:
                 parts.append(f"from {dot}{names[star]} import *\n")
+        parts.extend(chain.get(name, {}).get("imports", []))
         parts.append(f"\ndef {p}_base(x):\n    return x.{p}attr\n\n")
         if name == "helper":
             parts.append("def h_plain(x):\n    return x.hattr\n\n@rattr_ignore\ndef h_ignored(x):\n    return x.y\n\n")
@@ -144,12 +255,46 @@ def render(prog):
         for k in prog["files"][name]:
             n += 1
             parts.append(MODULE_MENU[k].format(p=p, n=n) + "\n")
+        for src in chain.get(name, {}).get("defs", []):
+            parts.append(src + "\n")
         if name == "target" and "helper" in prog["files"]:
             for k in prog.get("simpl", []):
                 n += 1
                 parts.append(dc.SIMPL_MENU[k].format(n=n) + "\n")
         out[name] = "".join(parts)
     return out
+
+
+def option_argv(prog):
+    """The analysis options of a program as command-line arguments ([] when they come from the TOML file).
+    options = {"F": [patterns], "x": [patterns], "f": level | None, "via": "cli" | "toml"}"""
+    o = prog.get("options") or {}
+    if o.get("via") == "toml":
+        return []
+    a = []
+    for pat in o.get("F", []):
+        a += ["-F", pat]
+    for pat in o.get("x", []):
+        a += ["-x", pat]
+    if o.get("f") is not None:
+        a += ["-f", str(o["f"])]
+    return a
+
+
+def option_toml(prog):
+    """The same options as lines of the [tool.rattr] table ("" when they are on the command line)."""
+    o = prog.get("options") or {}
+    if o.get("via") != "toml":
+        return ""
+    q = lambda xs: "[" + ", ".join("'" + x + "'" for x in xs) + "]"   # noqa: E731  (TOML literal strings: no escapes)
+    lines = []
+    if o.get("F"):
+        lines.append(f"exclude-imports = {q(o['F'])}\n")
+    if o.get("x"):
+        lines.append(f"exclude = {q(o['x'])}\n")
+    if o.get("f") is not None:
+        lines.append(f"follow-imports = {o['f']}\n")
+    return "".join(lines)
 
 
 class ScopedProject:
@@ -185,8 +330,9 @@ class ScopedProject:
             self.paths[name].write_text(src)
         self.target_arg = str(self.paths["target"].relative_to(self.cwd))
         self.target_path = self.paths["target"]
-        (self.root / "pyproject.toml").write_text("[tool.rattr]\n")
-        (self.cwd / "strict.toml").write_text("[tool.rattr]\nstrict = true\n")
+        self.option_argv = option_argv(prog)
+        (self.root / "pyproject.toml").write_text("[tool.rattr]\n" + option_toml(prog))
+        (self.cwd / "strict.toml").write_text("[tool.rattr]\nstrict = true\n" + option_toml(prog))
 
     def fid_of_path(self, p):
         if p is None:
@@ -211,11 +357,123 @@ class ScopedProject:
 # programs
 # ------------------------------------------------------------------------------------------------
 
-def _prog(files, simpl=(), layout="flat", names=None):
+def _prog(files, simpl=(), layout="flat", names=None, chain=None, options=None):
     p = {"kind": "scoped", "files": {k: list(v) for k, v in files.items()}, "simpl": list(simpl), "layout": layout}
     if names:
         p["names"] = {k: v for k, v in names.items() if k in files}
+    if chain:
+        p["chain"] = {"hops": chain["hops"], "style": chain.get("style", "from"), "calls": [list(c) for c in chain["calls"]]}
+        for f in chain_route(p):
+            p["files"].setdefault(f, [])
+    if options:
+        p["options"] = {"F": list(options.get("F", [])), "x": list(options.get("x", [])), "f": options.get("f"),
+                        "via": options.get("via", "cli")}
     return p
+
+
+def chain_programs(tier="thorough", rng=None, n_random=8):
+    """Round 4. Deterministic part: (a) calls that the simplifier resolves through 0, 1 and 2 re-exporting
+    modules, for every kind of callee at the end of the chain (missing, @rattr_ignore'd, excluded by -x, defined,
+    a lambda, a plain name, classes with / without / missing an initialiser, a stdlib function), with the arity
+    errors of imported callees, from a function of the target and from a function of a followed import, with
+    `from m import f` and `import m; m.f()`, flat and inside a package; (b) every option that names the culprit
+    of a diagnostic, given and not given, on the command line and in the TOML file: -F over an unlocatable
+    module (target / followed import / re-exporting module), -F over a module of the chain, -x over a called
+    function / class / a function holding diagnostics, -f 0. Then `n_random` random mixes."""
+    T, H = "target", "helper"
+    base = {"target": ["f_plain"], "helper": []}
+    ch = lambda hops, calls, style="from": {"hops": hops, "calls": calls, "style": style}      # noqa: E731
+    core = []
+    # (a) every callee kind at the second hop, called from the target
+    core.append(_prog(base, chain=ch(1, [("missing", "plain", T)])))
+    core.append(_prog(base, chain=ch(1, [("ignored", "plain", T), ("ok", "plain", T)])))
+    core.append(_prog(base, chain=ch(1, [("cls_missing", "store", T), ("cls_noinit", "store", T), ("cls_init", "store", T)])))
+    core.append(_prog(base, chain=ch(1, [("ok", "too_many", T), ("ok", "unexpected_kw", T), ("lam", "too_many", T)])))
+    core.append(_prog(base, chain=ch(1, [("var", "plain", T), ("stdlib", "plain", T), ("missing", "method", T)])))
+    core.append(_prog(base, chain=ch(1, [("excluded", "plain", T)]), options={"x": [X_XQ]}))
+    core.append(_prog(base, chain=ch(1, [("excluded", "plain", T), ("excluded", "too_many", T)])))
+    # deeper, shallower, other import style, other caller, package
+    core.append(_prog(base, chain=ch(2, [("missing", "plain", T), ("ignored", "plain", T), ("cls_noinit", "store", T)])))
+    core.append(_prog(base, chain=ch(0, [("missing", "plain", T), ("ignored", "plain", T), ("ok", "too_many", T)])))
+    core.append(_prog(base, chain=ch(1, [("missing", "plain", T), ("ignored", "twice", T)], style="module")))
+    core.append(_prog(base, chain=ch(2, [("missing", "plain", T), ("ok", "unexpected_kw", T)], style="module")))
+    core.append(_prog(base, chain=ch(1, [("missing", "plain", H), ("ignored", "plain", H), ("ok", "too_many", H)])))
+    core.append(_prog(base, chain=ch(2, [("cls_missing", "store", H), ("missing", "plain", T)])))
+    core.append(_prog(base, chain=ch(1, [("missing", "plain", T), ("cls_noinit", "store", H)]), layout="package"))
+    core.append(_prog({"target": ["f_undefined_name"], "helper": ["f_nested_def"], "facade": ["f_nested_def", "m_del"], "impl": ["f_undefined_name"]},
+                      simpl=["call_ignored"], chain=ch(1, [("missing", "plain", T), ("ok", "plain", T)])))
+    # (b) -F over unlocatable modules: written in the target, in the followed import, in a re-exporting module
+    FL = {"F": [F_LEGACY]}
+    core.append(_prog({"target": list(UNLOCATABLE), "helper": []}, options=FL))
+    core.append(_prog({"target": ["f_plain"], "helper": ["m_import_unlocatable", "m_from_unlocatable"]}, options=FL))
+    core.append(_prog({"target": ["m_del"], "helper": [], "facade": ["m_import_unlocatable_dotted"]},
+                      chain=ch(1, [("ok", "plain", T)]), options=FL))
+    core.append(_prog({"target": ["m_import_unlocatable", "f_undefined_name"], "helper": ["m_from_unlocatable"]},
+                      simpl=["stdlib_call"], options={**FL, "via": "toml"}))
+    core.append(_prog({"target": ["f_plain"], "tstar": ["m_import_unlocatable"]}, options=FL))
+    core.append(_prog({"target": ["m_import_unlocatable", "f_nested_def"], "helper": []}, options={"F": [F_LEGACY], "f": 0}))
+    core.append(_prog({"target": ["m_from_unlocatable"], "helper": ["f_nested_def"]}))          # not excluded: fatal
+    # -F over a module that exists: the end of the chain / the re-exporting module / the followed import
+    core.append(_prog(base, chain=ch(1, [("missing", "plain", T), ("ok", "too_many", T)]), options={"F": ["^impl$"]}))
+    core.append(_prog(base, chain=ch(1, [("missing", "plain", T), ("ignored", "plain", H)]), options={"F": ["^facade$"], "via": "toml"}))
+    core.append(_prog({"target": ["f_undefined_name"], "helper": ["f_nested_def"]}, simpl=["call_ignored", "too_many_args"],
+                      options={"F": ["^helper$"]}))
+    # -x over the culprit
+    XQ = {"x": [X_XQ]}
+    core.append(_prog({"target": ["f_call_excluded", "f_init_excluded", "f_excluded_nested_def", "f_excluded_global"], "helper": []}, options=XQ))
+    core.append(_prog({"target": ["f_excluded_global", "f_call_excluded"], "helper": []}))                 # not excluded: fatal
+    core.append(_prog({"target": ["f_call_excluded", "f_init_excluded", "f_excluded_nested_def", "f_excluded_undefined_name"],
+                       "helper": ["f_excluded_nested_def"]}))
+    core.append(_prog({"target": ["f_excluded_undefined_name"], "helper": ["f_excluded_nested_def", "f_excluded_global"]},
+                      options={**XQ, "via": "toml"}))
+    # -f 0: nothing is followed
+    core.append(_prog({"target": ["f_undefined_name"], "helper": ["f_nested_def"]}, simpl=["call_ignored", "too_many_args", "local_too_many"],
+                      chain=ch(1, [("missing", "plain", T)]), options={"f": 0}))
+    core.append(_prog({"target": ["m_del"], "helper": ["f_nested_def"]}, simpl=["import_missing_name"], options={"f": 0, "via": "toml"}))
+    rnd = [gen_chain_program(rng) for _ in range(n_random)] if rng is not None else []
+    return core, rnd
+
+
+def gen_chain_program(rng):
+    """Random mix: a chain of 0-2 hops with 1-4 calls, 0-2 option-sensitive constructs per file, ordinary
+    constructs, and a random option state (each option given or not, whatever the constructs need)."""
+    files = {"target": [], "helper": []} if rng.random() < 0.85 else {"target": []}
+    if rng.random() < 0.3:
+        files["tstar"] = []
+    steady = [k for k in MODULE_MENU if k not in ENDING and k not in OPTION_MENU]
+    weighted = list(WEIGHTED_ROOT) + ["f_undefined_name", "f_nested_def", "f_class_not_stored", "f_lambda_in_function"]
+    chain = None
+    if rng.random() < 0.75:
+        callees = list(CHAIN_CALLEES)
+        calls = []
+        for _ in range(rng.randint(1, 4)):
+            c = rng.choice(callees) if rng.random() < 0.6 else rng.choice(["missing", "ignored", "excluded", "cls_noinit", "cls_missing"])
+            shape = "store" if c.startswith("cls") and rng.random() < 0.8 else rng.choice(list(CHAIN_SHAPES))
+            calls.append((c, shape, rng.choice(["target", "target", "helper"])))
+        chain = {"hops": rng.choice([0, 1, 1, 1, 2, 2]), "style": "module" if rng.random() < 0.25 else "from", "calls": calls}
+        for f in CHAIN_ROUTE[:chain["hops"]] + ("impl",):
+            files[f] = []
+    for name in files:
+        for _ in range(rng.randint(0, 2)):
+            r = rng.random()
+            files[name].append(rng.choice(list(OPTION_MENU)) if r < 0.4 else rng.choice(weighted) if r < 0.75 else rng.choice(steady))
+    kinds = [k for ks in files.values() for k in ks]
+    needs_f = any(k in UNLOCATABLE for k in kinds)
+    needs_x = any("excluded" in k for k in kinds) or bool(chain and any(c[0] == "excluded" for c in chain["calls"]))
+    opts = {"F": [], "x": [], "f": None, "via": "toml" if rng.random() < 0.25 else "cli"}
+    if rng.random() < (0.85 if needs_f else 0.15):
+        opts["F"].append(F_LEGACY)
+    if rng.random() < (0.6 if needs_x else 0.1):
+        opts["x"].append(X_XQ)
+    if rng.random() < 0.15:
+        opts["F"].append("^" + rng.choice([f for f in files if f != "target"] or ["helper"]) + "$")
+    if rng.random() < 0.1:
+        opts["f"] = 0
+    if not (opts["F"] or opts["x"] or opts["f"] is not None):
+        opts = None
+    simpl = [rng.choice(list(dc.SIMPL_MENU)) for _ in range(rng.randint(0, 2))] if "helper" in files else []
+    layout = "package" if rng.random() < 0.2 else "flat"
+    return _prog(files, simpl, layout, chain=chain, options=opts)
 
 
 def fixed_programs(tier="thorough", rng=None, n_rotating=10):
@@ -633,6 +891,133 @@ def diag_only(steps):
 
 
 # ------------------------------------------------------------------------------------------------
+# round 4: the two import-following loops against their Lean models (SimplResolve.resolve / walkOne)
+# ------------------------------------------------------------------------------------------------
+
+def serials(prog):
+    """(file, kind, n) of every menu construct, numbered as `render` numbers them."""
+    out, n = [], 0
+    for name in [f for f in FILES if f in prog["files"]]:
+        for k in prog["files"][name]:
+            n += 1
+            out.append((name, k, n))
+        if name == "target" and "helper" in prog["files"]:
+            n += len(prog.get("simpl", []))
+    return out
+
+
+def _full_name(prog, role):
+    return ("pkg." if prog.get("layout") == "package" else "") + module_names(prog)[role]
+
+
+def _blacklisted(prog, module):
+    import re
+    return any(re.fullmatch(p, module) for p in (prog.get("options") or {}).get("F", []))
+
+
+def _follow(prog):
+    return (prog.get("options") or {}).get("f") != 0
+
+
+def _checks(prog, module, stdlib=False):
+    return {"moduleKnown": True, "blacklisted": (not stdlib) and _blacklisted(prog, module), "followLocal": _follow(prog),
+            "skipPip": False, "skipStdlib": stdlib, "hasIr": True}
+
+
+def model_jobs(prog, dry):
+    """What the program itself says about the resolutions and walk elements it contains -> list of
+    {"what", "op", "payload", "times", "token", "raiser"}: the model input is derived from the program and its
+    options only (which modules exist, which patterns match them, what the last module holds for the name)."""
+    import re
+    if any(e["level"] == "fatal" for e in dry["events"]):
+        return []          # the run ended before (or inside) the loops
+    jobs = []
+    o = prog.get("options") or {}
+    files = prog["files"]
+    helper_followed = "helper" in files and _follow(prog) and not _blacklisted(prog, _full_name(prog, "helper"))
+    ch = prog.get("chain")
+    if ch:
+        route = chain_route(prog)
+        module_style = ch.get("style") == "module" and prog.get("layout") != "package"
+        for i, call in enumerate(ch["calls"]):
+            callee, shape, caller = call
+            n = 900 + i
+            f = chain_name(call, n)
+            who = "helper" if caller == "helper" and "helper" in files else "target"
+            if who == "helper":
+                # the call of the target into the followed import, resolved through one module
+                jobs.append({"what": f"h_c{n}", "op": "diag_resolve", "token": f"h_c{n}", "raiser": "resolve_import", "times": 1,
+                             "payload": {"hops": [_checks(prog, _full_name(prog, "helper"))], "final": {"kind": "callable", "flag": True}}})
+                if not helper_followed:
+                    jobs.append({"what": f, "op": None, "token": f, "raiser": "resolve_import", "times": 0, "expect": []})
+                    continue
+            if callee == "stdlib":
+                mods = [(_full_name(prog, r), False) for r in route[:-1]] + [("math", True)]
+                final = {"kind": "other", "flag": False}
+            else:
+                mods = [(_full_name(prog, r), False) for r in route]
+                x_given = any(re.fullmatch(p, f) for p in o.get("x", []))
+                final = {"missing": ("absent", False), "cls_missing": ("absent", False), "ignored": ("callable", False),
+                         "excluded": ("callable", not x_given), "ok": ("callable", True), "lam": ("callable", True),
+                         "cls_init": ("callable", True), "cls_noinit": ("callable", False), "var": ("other", False)}[callee]
+                final = {"kind": final[0], "flag": final[1]}
+            hops = [_checks(prog, m, std) for m, std in mods]
+            if shape == "method":
+                if not (module_style and not (callee == "stdlib" and len(route) == 1)):
+                    continue        # `name.meth()` on an imported *name*: no import resolution is modelled for it
+                hops, final = hops[:1], {"kind": "absent", "flag": True}      # the dotted name is looked up in the first module
+            jobs.append({"what": f, "op": "diag_resolve", "token": f, "raiser": "resolve_import",
+                         "times": 2 if shape == "twice" else 1, "payload": {"hops": hops, "final": final}})
+    # unlocatable modules named by -F, written in a file whose imports the walk queues
+    queued = {"target": True, "helper": helper_followed}
+    for name, kind, n in serials(prog):
+        if kind in UNLOCATABLE and name in queued:
+            module = f"legacy_{PREFIX[name]}{n}"
+            if not _blacklisted(prog, module) and not _blacklisted(prog, module + f".sub{n}"):
+                continue      # (not excluded: make_import_symbol ends the run — a fatal, handled above)
+            if not (queued[name] and _follow(prog)):
+                jobs.append({"what": module, "op": None, "token": module, "raiser": "parse_and_analyse_imports", "times": 0, "expect": []})
+                continue
+            jobs.append({"what": module, "op": "diag_walk", "token": module, "raiser": "parse_and_analyse_imports", "times": 1,
+                         "payload": {"nameKnown": False, "specKnown": False, "hasOrigin": False, "builtinLoader": False, "seen": False,
+                                     "blacklisted": True, "skipPip": False, "skipStdlib": False}})
+    return jobs
+
+
+def observed_for(job, events):
+    import re
+    pat = re.compile(r"(?<![A-Za-z0-9_])" + re.escape(job["token"]) + r"(?![A-Za-z0-9_])")
+    return [[e["level"], e["badness"], e["where"]] for e in events
+            if e.get("raiser") == job["raiser"] and pat.search(e["message"])]
+
+
+def judge_models(res, rec, outs):
+    """Model (SimplResolve) vs implementation on the resolutions / walk elements of one program."""
+    prog = rec["prog"]
+    case = {**rec["case_base"], "cfg": dict(strict=False, threshold=0, warn="all", H=False, T=False)}
+    for job, mo in zip(rec["model_jobs"], outs):
+        obs = observed_for(job, rec["dry"]["events"])
+        if job["op"] is None:
+            want = []
+        elif mo is None or "__error__" in mo:
+            res.disagreements.append({"case": case, "what": job["what"], "model": mo})
+            continue
+        elif job["op"] == "diag_resolve":
+            if mo["outcome"] == "import-error":
+                res.internal_errors.append({"what": "a generated chain ends in an ImportError according to the model (outside the fragment)", "program": prog})
+                continue
+            want = [[lv, b, l] for (lv, b), l in zip(mo["reports"], mo["locs"])] * job["times"]
+            if not mo["inOwnFile"] or any(l != "simplification" for l in mo["locs"]):
+                res.internal_errors.append({"what": "SimplResolve: a resolution placed outside the simplification stage (contradicts C15_resolve_booked_to_simplification)", "program": prog})
+        else:
+            want = [[mo["level"], mo["badness"], "target"]] if mo["t"] == "report" else []
+        res.count(f"scoped:model:{job['op'] or 'not-reached'}:{'+'.join(w[0] for w in want) or 'silent'}")
+        if obs != want:
+            res.disagreements.append({"case": case, "fields": [f"{job['raiser']}:{job['what']}"], "impl": obs, "model": want,
+                                      "model_input": job.get("payload")})
+
+
+# ------------------------------------------------------------------------------------------------
 # prepare / judge (called from props/c15.py)
 # ------------------------------------------------------------------------------------------------
 
@@ -688,7 +1073,8 @@ def event_violations(ev):
     lvl, b = ev["level"], ev["badness"]
     doc = {"info": 0, "warning": 1, "error": 5, "fatal": 0}[lvl]
     if b != doc and not (b == 0 and ev["message"].startswith("unable to resolve builtin module")):
-        out.append(f"undocumented-weight:{lvl}:{b}")
+        # (the call site is part of the class: the same weight at another site is another defect)
+        out.append(f"undocumented-weight:{lvl}:{b}" + (f"@{ev['raiser']}" if ev.get("raiser") else ""))
     src, attributed = src_of(ev)
     a = place_of(src) if attributed else None
     tag = ""
@@ -742,6 +1128,13 @@ def prepare(res, project, prog, rng, pidx, c15):
     for name, kinds in prog["files"].items():
         for k in kinds:
             res.count(f"scoped:construct:{k}@{name}")
+    o = prog.get("options") or {}
+    res.count("scoped:options:" + ("+".join(["-F"] * bool(o.get("F")) + ["-x"] * bool(o.get("x")) + ["-f0"] * (o.get("f") == 0)) or "none")
+              + (":toml" if o.get("via") == "toml" else ""))
+    if prog.get("chain"):
+        c = prog["chain"]
+        for callee, shape, caller in c["calls"]:
+            res.count(f"scoped:chain:hops={c['hops']}:{c['style']}:{callee}:{shape}@{caller}")
     for e in dry["events"]:
         src, attributed = src_of(e)
         res.count(f"scoped:event:{e['level']}:{place_of(src) if attributed else 'unattributed'}:file{src}")
@@ -758,7 +1151,7 @@ def prepare(res, project, prog, rng, pidx, c15):
     cfgs = configs_for(total, rng)
     outputs = ["stats" if (i + pidx) % 2 == 0 else "results" for i in range(len(cfgs))]
     return {"project": project, "prog": prog, "case_base": case_base, "steps": steps, "total": total, "cfgs": cfgs,
-            "outputs": outputs, "dry": dry, "scoped": True}
+            "outputs": outputs, "dry": dry, "scoped": True, "model_jobs": model_jobs(prog, dry)}
 
 
 def src_events(steps):
